@@ -120,7 +120,16 @@ Fixpoint smatch (amp : path -> bool) (s : sel) (p : path) {struct s} : bool :=
     | SChild a b => smatch amp b p && smatch amp a anc
     | SIs a => smatch amp a p
     | SOr a b => smatch amp a p || smatch amp b p
+    | SPseudo _ _ => false
     end
+  end.
+
+(* does selector s select the element p (pseudo = 0) / its pseudo-element
+   number `pseudo` (Selectors-4 3.6: the pseudo-element is written last) *)
+Definition sapplies (amp : path -> bool) (s : sel) (pseudo : N) (p : path) : bool :=
+  match s with
+  | SPseudo k a => (k =? pseudo) && (0 <? pseudo) && smatch amp a p
+  | _ => (pseudo =? 0) && smatch amp s p
   end.
 
 (* Selectors-4 17: specificity; `aspec` is the specificity of `&`, i.e. of the
@@ -137,13 +146,14 @@ Fixpoint sspec (aspec : spec3) (s : sel) : spec3 :=
       let '(a2, b2, c2) := sspec aspec b in (a1 + a2, b1 + b2, c1 + c2)
   | SIs a => sspec aspec a
   | SOr a b => lex_max (sspec aspec a) (sspec aspec b)
+  | SPseudo _ a => let '(a1, b1, c1) := sspec aspec a in (a1, b1, c1 + 1)
   end.
 
 Fixpoint mentions_amp (s : sel) : bool :=
   match s with
   | SAmp => true
   | SAnd a b | SDesc a b | SChild a b | SOr a b => mentions_amp a || mentions_amp b
-  | SIs a => mentions_amp a
+  | SIs a | SPseudo _ a => mentions_amp a
   | _ => false
   end.
 
@@ -153,6 +163,7 @@ Fixpoint implied_amp (s : sel) : sel :=
   match s with
   | SDesc a b => SDesc (implied_amp a) b
   | SChild a b => SChild (implied_amp a) b
+  | SPseudo k a => SPseudo k (implied_amp a)
   | _ => SDesc SAmp s
   end.
 Definition relative (s : sel) : sel := if mentions_amp s then s else implied_amp s.
@@ -161,29 +172,30 @@ Record ctx := mkCtx { c_amp : path -> bool; c_aspec : spec3 }.
 
 Definition top_ctx : ctx := mkCtx (fun _ => false) (0, 0, 0).
 
-Definition list_matches (c : ctx) (g : list sel) (p : path) : bool :=
-  existsb (fun s => smatch (c_amp c) s p) g.
+Definition list_matches (c : ctx) (g : list sel) (pseudo : N) (p : path) : bool :=
+  existsb (fun s => sapplies (c_amp c) s pseudo p) g.
 
 (* specificity of a rule for the element: the most specific selector of the
    list among those that match (Selectors-4 17) *)
-Definition list_rank (c : ctx) (g : list sel) (p : path) : spec3 :=
-  fold_right (fun s acc => if smatch (c_amp c) s p then lex_max (sspec (c_aspec c) s) acc else acc) (0, 0, 0) g.
+Definition list_rank (c : ctx) (g : list sel) (pseudo : N) (p : path) : spec3 :=
+  fold_right (fun s acc => if sapplies (c_amp c) s pseudo p then lex_max (sspec (c_aspec c) s) acc else acc) (0, 0, 0) g.
 
 Definition list_spec (c : ctx) (g : list sel) : spec3 :=
   fold_right (fun s acc => lex_max (sspec (c_aspec c) s) acc) (0, 0, 0) g.
 
+(* `&` stands for the elements (not pseudo-elements) the parent list matches *)
 Definition child_ctx (c : ctx) (g : list sel) : ctx :=
-  mkCtx (list_matches c g) (list_spec c g).
+  mkCtx (list_matches c g 0) (list_spec c g).
 
 (* declarations of a style rule's block that apply to p, in the order they are
    written, with the specificity of their rule *)
-Fixpoint body_occs (c : ctx) (g : list sel) (b : body) (p : path) : list (decl * spec3) :=
+Fixpoint body_occs (c : ctx) (g : list sel) (b : body) (pseudo : N) (p : path) : list (decl * spec3) :=
   match b with
   | BNil => []
   | BDecl d rest =>
-      (if list_matches c g p then [(d, list_rank c g p)] else []) ++ body_occs c g rest p
+      (if list_matches c g pseudo p then [(d, list_rank c g pseudo p)] else []) ++ body_occs c g rest pseudo p
   | BNest pre inner rest =>
-      body_occs (child_ctx c g) (map relative pre) inner p ++ body_occs c g rest p
+      body_occs (child_ctx c g) (map relative pre) inner pseudo p ++ body_occs c g rest pseudo p
   end.
 
 Definition media_matches (q : list N) (device : N) : bool :=
@@ -193,48 +205,51 @@ Definition media_matches (q : list N) (device : N) : bool :=
   end.
 
 (* `prologue` = only @import rules have been seen so far in this sheet *)
-Fixpoint rules_occs (device : N) (prologue : bool) (rs : rules) (p : path) : list (decl * spec3) :=
+Fixpoint rules_occs (device : N) (prologue : bool) (rs : rules) (pseudo : N) (p : path) : list (decl * spec3) :=
   match rs with
   | RNil => []
-  | RStyle g b rest => body_occs top_ctx g b p ++ rules_occs device false rest p
+  | RStyle g b rest => body_occs top_ctx g b pseudo p ++ rules_occs device false rest pseudo p
   | RMedia q inner rest =>
-      (if media_matches q device then rules_occs device false inner p else [])
-      ++ rules_occs device false rest p
+      (if media_matches q device then rules_occs device false inner pseudo p else [])
+      ++ rules_occs device false rest pseudo p
   | RImport q fetched sh rest =>
-      (if prologue && fetched && media_matches q device then rules_occs device true sh p else [])
-      ++ rules_occs device prologue rest p
-  | ROther rest => rules_occs device false rest p
+      (if prologue && fetched && media_matches q device then rules_occs device true sh pseudo p else [])
+      ++ rules_occs device prologue rest pseudo p
+  | ROther rest => rules_occs device false rest pseudo p
   end.
 
-Definition sheet_occs (o : origin) (hint_sheet : bool) (device : N) (rs : rules) (p : path) : list occ :=
+Definition sheet_occs (o : origin) (hint_sheet : bool) (device : N) (rs : rules) (pseudo : N) (p : path) : list occ :=
   map (fun ds => mkOcc (d_prop (fst ds)) (d_vid (fst ds)) (level_of o (d_imp (fst ds)))
                        (if hint_sheet then RHint else RSel (snd ds)))
-      (rules_occs device true rs p).
+      (rules_occs device true rs pseudo p).
 
 Definition attr_occs (r : rank) (ds : list decl) : list occ :=
   map (fun d => mkOcc (d_prop d) (d_vid d) (level_of Author (d_imp d)) r) ds.
 
 (* every declaration that applies to the element, in order of appearance.
    (Between different origins the order is irrelevant; presentational hints come
-   before the author sheets; the style attribute is put last.) *)
-Definition applicable (d : document) (p : path) : list occ :=
+   before the author sheets; the style attribute is put last.)
+   The attributes of an element concern the element, not its pseudo-elements. *)
+Definition applicable (d : document) (pseudo : N) (p : path) : list occ :=
   match p with
   | [] => []
   | e :: _ =>
-      sheet_occs UA false (doc_ua_device d) (doc_ua d) p
-      ++ flat_map (fun u => sheet_occs User false (fst u) (snd u) p) (doc_users d)
+      sheet_occs UA false (doc_ua_device d) (doc_ua d) pseudo p
+      ++ flat_map (fun u => sheet_occs User false (fst u) (snd u) pseudo p) (doc_users d)
       ++ (if doc_hints d
-          then attr_occs RHint (n_hints e) ++ sheet_occs Author true (doc_ph_device d) (doc_ph d) p
+          then (if pseudo =? 0 then attr_occs RHint (n_hints e) else [])
+               ++ sheet_occs Author true (doc_ph_device d) (doc_ph d) pseudo p
           else [])
       ++ flat_map (fun a => if media_matches (a_media a) (doc_device d)
-                            then sheet_occs Author false (doc_device d) (a_rules a) p else [])
+                            then sheet_occs Author false (doc_device d) (a_rules a) pseudo p else [])
                   (doc_authors d)
-      ++ attr_occs RAttr (n_style e)
+      ++ (if pseudo =? 0 then attr_occs RAttr (n_style e) else [])
   end.
 
-(* the value the cascade must produce *)
-Definition cascaded (d : document) (p : path) (prop : N) : option N :=
-  option_map (fun w => o_vid (snd w)) (winner (number (applicable d p)) prop).
+(* the value the cascade must produce for the element (pseudo = 0) or its
+   pseudo-element *)
+Definition cascaded (d : document) (pseudo : N) (p : path) (prop : N) : option N :=
+  option_map (fun w => o_vid (snd w)) (winner (number (applicable d pseudo p)) prop).
 
 (* top-level rules do not use `&` (there it means :scope, outside this model) *)
 Fixpoint rules_no_top_amp (rs : rules) : bool :=
